@@ -1,6 +1,7 @@
 (* Proofs/DOKP.v — the DOK state machine refines a dense NumPy array (property C12). *)
 From Coq Require Import ZArith List Bool Lia ZifyBool Sorting Permutation.
-From Verif Require Import Py PyExt G_slicing G_dok PySlice Shape Slicing SlicingP COO NpAssign DOK.
+From Verif Require Import Py PyExt G_slicing G_dok PySlice Shape Slicing SlicingP COO NpIndex CooIndex
+     CooIndexNormP CooIndexP NpAssign DOK.
 Import ListNotations.
 Open Scope Z_scope.
 
@@ -284,6 +285,11 @@ Qed.
 Lemma bidx_nil js : bidx [] js = [].
 Proof. reflexivity. Qed.
 
+Lemma index_value_fits_bcast elem vs ss : index_value_fits elem vs ss = true -> bcast_ok vs ss = true.
+Proof.
+  unfold index_value_fits. destruct elem; [|auto]. destruct vs; [reflexivity|discriminate].
+Qed.
+
 Lemma value_fits_bcast vs ss : value_fits vs ss = true -> bcast_ok vs ss = true.
 Proof.
   unfold value_fits. destruct ss; [|auto]. destruct vs; [reflexivity|discriminate].
@@ -291,11 +297,14 @@ Qed.
 
 Lemma locate_length axs : forall t js, locate axs t = Some js -> length js = length (selshape axs).
 Proof.
-  induction axs as [|[k|ks] r IH]; intros [|i t] js; simpl; try discriminate.
-  - intros H. inversion H. reflexivity.
-  - destruct (i =? k); [apply IH|discriminate].
-  - destruct (last_pos Z.eqb i ks); [|discriminate].
+  induction axs as [|[k|ks|] r IH]; intros t js; simpl.
+  - destruct t; [|discriminate]. intros H. inversion H. reflexivity.
+  - destruct t as [|i t]; [discriminate|]. destruct (i =? k); [apply IH|discriminate].
+  - destruct t as [|i t]; [discriminate|].
+    destruct (last_pos Z.eqb i ks); [|discriminate].
     destruct (locate r t) eqn:E; [|discriminate].
+    intros H. inversion H. simpl. f_equal. eapply IH. eassumption.
+  - destruct (locate r t) eqn:E; [|discriminate].
     intros H. inversion H. simpl. f_equal. eapply IH. eassumption.
 Qed.
 
@@ -651,8 +660,13 @@ Proof.
     destruct (np_axis e d) as [a|] eqn:Ea; [|discriminate].
     destruct (np_axes es sh) as [r|] eqn:Er; [|discriminate].
     intros H. inversion H; subst; clear H.
-    destruct t as [|i t]; [destruct a; simpl; tauto|].
-    destruct a as [k|ks]; simpl.
+    assert (Hnn : a <> ANew).
+    { destruct e as [i0|a0 b0 c0]; simpl in Ea.
+      - destruct (wrap_index i0 d); [inversion Ea; discriminate|discriminate].
+      - destruct (slice_selects a0 b0 c0 d); [inversion Ea; discriminate|discriminate]. }
+    destruct a as [k|ks|]; [| |contradiction].
+    1: destruct t as [|i t]; [simpl; tauto|]; simpl.
+    2: destruct t as [|i t]; [simpl; tauto|]; simpl.
     + destruct (Z.eqb_spec i k) as [->|]; [|tauto]. intros Hl. split; [|eapply IH; eassumption].
       destruct e as [i0|a0 b0 c0]; simpl in Ea.
       * destruct (wrap_index i0 d) eqn:Ew; [|discriminate]. inversion Ea; subst.
@@ -734,6 +748,225 @@ Section BasicStep.
     - apply Hw. intros t Ht. simpl. eapply np_axes_in_range; eassumption.
   Qed.
 End BasicStep.
+
+(* ------------------------------------------------------------------ general basic indices *)
+(* composing with agent c02b's normalize_index (Model/CooIndex.v, Proofs/CooIndexNormP.v):
+   normalize_link says that the code's normalize_index returns [norm_all ex sh] for the expanded
+   index ex, and that NumPy's resolution (Spec/NpIndex.v) is [map to_r (norm_all ex sh)].  For an
+   expanded index made of integers and slices every entry of norm_all resolves, as _setitem expands
+   it, to the axis NumPy selects. *)
+Definition simple_entry (e : ientry) : bool :=
+  match e with IInt _ | ISlice _ _ _ => true | _ => false end.
+
+Lemma shape_okb_ok sh : shape_ok sh -> shape_okb sh = true.
+Proof.
+  intros H. unfold shape_okb. apply forallb_forall. intros d Hd.
+  unfold shape_ok in H. rewrite Forall_forall in H. specialize (H d Hd). lia.
+Qed.
+
+Lemma norm_all_resolves : forall ex sh,
+  shape_ok sh -> fits ex sh = true -> all_ok ex sh = true -> no_zero_step ex = true ->
+  forallb simple_entry ex = true ->
+  exists axs,
+    axes_of_rentries (map to_r (norm_all ex sh)) = Some axs /\
+    Forall2 resolves (combine (map nentry_pv (norm_all ex sh)) sh) axs /\
+    length (norm_all ex sh) = length sh /\
+    (forall t, locate axs t <> None -> in_range sh t) /\
+    axes_of_nix (norm_all ex sh) = Ok axs.
+Proof.
+  induction ex as [|e ex IH]; intros sh Hok Hf Ha Hz Hs.
+  - destruct sh; [|discriminate]. exists []. repeat split; try constructor.
+    intros t Ht. destruct t; simpl in *; [exact I|congruence].
+  - cbn [forallb] in Hs. apply andb_true_iff in Hs. destruct Hs as [Hse Hs].
+    unfold no_zero_step in Hz. cbn [forallb] in Hz. apply andb_true_iff in Hz. destruct Hz as [Hze Hz].
+    destruct e as [z|a b c| | | |]; try discriminate.
+    + (* an integer *)
+      destruct sh as [|d sh]; [discriminate|]. cbn [fits] in Hf. cbn [all_ok] in Ha.
+      apply andb_true_iff in Ha. destruct Ha as [Hb Ha]. inversion Hok as [|? ? Hd Hok']; subst.
+      destruct (IH sh Hok' Hf Ha Hz Hs) as (axs & H1 & H2 & H3 & H4 & H5).
+      exists (AInt (wrap d z) :: axs). cbn [norm_all nentry_spec map to_r axes_of_rentries axis_of_rentry].
+      rewrite H1. repeat split.
+      * cbn [nentry_pv combine]. constructor; [constructor|exact H2].
+      * cbn [length]. rewrite H3. reflexivity.
+      * intros t. cbn [locate]. destruct t as [|i t]; [congruence|].
+        destruct (Z.eqb_spec i (wrap d z)) as [->|]; [|congruence]. intros Hl. split; [|apply H4; exact Hl].
+        cbn [entry_okb] in Hb. unfold in_bounds in Hb. unfold wrap. destruct (Z.ltb_spec z 0); lia.
+      * cbn [axes_of_nix]. rewrite H5. reflexivity.
+    + (* a slice *)
+      destruct sh as [|d sh]; [discriminate|]. cbn [fits] in Hf. cbn [all_ok] in Ha.
+      apply andb_true_iff in Ha. destruct Ha as [_ Ha]. inversion Hok as [|? ? Hd Hok']; subst.
+      destruct (IH sh Hok' Hf Ha Hz Hs) as (axs & H1 & H2 & H3 & H4 & H5).
+      assert (Hc : c <> Some 0) by (intros ->; discriminate).
+      pose proof (norm_clipped a b c d Hd Hc) as Hcl.
+      pose proof (slice_norm_correct_proof a b c d Hd Hc) as Hsel.
+      destruct (norm_triple (normalize_slice (VSlice (oz a) (oz b) (oz c)) d)) as [[[s1 e1] st]|] eqn:Et;
+        [|contradiction].
+      destruct Hcl as [Hst Hcl]. apply norm_triple_some in Et.
+      assert (Hst0 : st <> 0) by (rewrite Hst; destruct c as [z|]; simpl; [congruence|lia]).
+      assert (Hn : nentry_spec (ISlice a b c) d = NSlice s1 e1 st).
+      { cbn [nentry_spec]. unfold nslice_of. rewrite Et. reflexivity. }
+      rewrite Et in Hsel. cbn [selects] in Hsel.
+      exists (ASel (range_list s1 e1 st) :: axs). cbn [norm_all]. rewrite Hn.
+      cbn [map to_r axes_of_rentries axis_of_rentry]. rewrite H1. repeat split.
+      * cbn [nentry_pv combine]. constructor; [|exact H2].
+        apply res_slice; [reflexivity|apply dok_bounds_clipped; assumption|assumption].
+      * cbn [length]. rewrite H3. reflexivity.
+      * intros t. cbn [locate]. destruct t as [|i t]; [congruence|].
+        destruct (last_pos Z.eqb i (range_list s1 e1 st)) as [q|] eqn:Elp; [|congruence].
+        destruct (locate axs t) eqn:El; [|congruence]. intros _.
+        split; [|apply H4; congruence].
+        eapply slice_selects_bounds; [exact Hd|symmetry; exact Hsel|].
+        eapply last_pos_some_in; eassumption.
+      * cbn [axes_of_nix]. destruct (Z.eqb_spec st 0); [contradiction|]. rewrite H5. reflexivity.
+Qed.
+
+Definition simple_or_ell (e : ientry) : bool :=
+  match e with IInt _ | ISlice _ _ _ | IEllipsis => true | _ => false end.
+
+Lemma simple_of_clauses ix :
+  index_no_newaxis ix = true -> index_no_arrays ix = true -> forallb simple_or_ell ix = true.
+Proof.
+  unfold index_no_newaxis, index_no_arrays. rewrite !forallb_forall. intros H1 H2 e He.
+  specialize (H1 e He). specialize (H2 e He). destruct e; try reflexivity; discriminate.
+Qed.
+
+Lemma expand_simple nd ix ex sh :
+  expand nd ix = Ok ex -> fits ex sh = true -> forallb simple_or_ell ix = true ->
+  forallb simple_entry ex = true.
+Proof.
+  intros He Hf Hs. pose proof (fits_no_ell ex sh Hf) as Hne.
+  unfold expand in He. destruct (1 <? countb is_ell ix); [discriminate|].
+  destruct (nd - countb consumes ix <? 0); [discriminate|]. inversion He; subst ex; clear He.
+  rewrite forallb_forall in *. intros e Hin. specialize (Hne e Hin).
+  assert (Hfull : forall e k, In e (repeat full_slice k) -> e = full_slice) by (intros e0 k Hk; eapply repeat_spec; eauto).
+  assert (Hcase : In e (repeat full_slice (Z.to_nat (nd - countb consumes ix))) \/ In e ix).
+  { destruct (0 <? countb is_ell ix); [apply subst_In in Hin; exact Hin|].
+    apply in_app_iff in Hin. tauto. }
+  destruct Hcase as [Hc|Hc].
+  - rewrite (Hfull _ _ Hc). reflexivity.
+  - specialize (Hs e Hc). destruct e; try reflexivity; discriminate.
+Qed.
+
+Lemma index_nzs ix : index_no_zero_step ix = true -> no_zero_step ix = true.
+Proof. intros H. exact H. Qed.
+
+Lemma basic_of_no_arrays ix : index_no_arrays ix = true -> basic ix = true.
+Proof. intros H. exact H. Qed.
+
+(* what the two sides do with a general basic index (no None, no index arrays, no zero step) *)
+Lemma index_link sh ix :
+  shape_ok sh -> index_no_newaxis ix = true -> index_no_arrays ix = true -> index_no_zero_step ix = true ->
+  (exists nix axs,
+     CooIndex.normalize_index ix sh = Ok nix /\ np_index_axes sh ix = Some axs /\
+     Forall2 resolves (ents_of_nix nix sh) axs /\
+     (forall t, locate axs t <> None -> in_range sh t) /\
+     axes_of_nix nix = Ok axs)
+  \/ (CooIndex.normalize_index ix sh = Raise IndexError /\ np_index_axes sh ix = None).
+Proof.
+  intros Hok Hnn Hna Hz.
+  pose proof (shape_okb_ok sh Hok) as Hokb.
+  assert (Hd29 : d29_clause sh ix = true).
+  { unfold d29_clause. destruct (expand (Z.of_nat (length sh)) ix) as [ex|] eqn:E; [|reflexivity].
+    apply basic_bool_ok. eapply basic_expand; [exact E|]. apply basic_of_no_arrays. exact Hna. }
+  destruct (normalize_link sh ix Hokb (index_nzs ix Hz) Hd29)
+    as [(ex & He & Hf & Ha & Hn & Hr)|[Hn Hr]].
+  - left. pose proof (expand_nzs _ _ _ He (index_nzs ix Hz)) as Hz'.
+    pose proof (expand_simple _ _ _ _ He Hf (simple_of_clauses ix Hnn Hna)) as Hs.
+    destruct (norm_all_resolves ex sh Hok Hf Ha Hz' Hs) as (axs & H1 & H2 & H3 & H4 & H5).
+    exists (norm_all ex sh), axs. split; [exact Hn|]. split; [|split; [|split; [exact H4|exact H5]]].
+    + unfold np_index_axes. unfold resolve_all in Hr. rewrite He in *. cbn [bind] in Hr. rewrite Hr. exact H1.
+    + unfold ents_of_nix. rewrite H3, Nat.sub_diag. cbn [repeat]. rewrite app_nil_r. exact H2.
+  - right. split; [exact Hn|]. unfold np_index_axes. unfold resolve_all in Hr.
+    destruct (expand (Z.of_nat (length sh)) ix) as [ex|]; [|reflexivity].
+    cbn [bind] in Hr. rewrite Hr. reflexivity.
+Qed.
+
+(* reads: None entries allowed *)
+Lemma norm_all_axes_read : forall ex sh,
+  shape_ok sh -> fits ex sh = true -> no_zero_step ex = true -> basic ex = true ->
+  exists axs,
+    axes_of_rentries (map to_r (norm_all ex sh)) = Some axs /\ axes_of_nix (norm_all ex sh) = Ok axs.
+Proof.
+  induction ex as [|e ex IH]; intros sh Hok Hf Hz Hb.
+  - exists []. split; reflexivity.
+  - unfold no_zero_step in Hz. cbn [forallb] in Hz. apply andb_true_iff in Hz. destruct Hz as [Hze Hz].
+    unfold basic in Hb. cbn [forallb] in Hb. apply andb_true_iff in Hb. destruct Hb as [Hbe Hb].
+    destruct e as [z|a b c| | | |]; try discriminate.
+    + destruct sh as [|d sh]; [discriminate|]. cbn [fits] in Hf. inversion Hok as [|? ? Hd Hok']; subst.
+      destruct (IH sh Hok' Hf Hz Hb) as (axs & H1 & H2).
+      exists (AInt (wrap d z) :: axs). cbn [norm_all nentry_spec map to_r axes_of_rentries axis_of_rentry axes_of_nix].
+      rewrite H1, H2. split; reflexivity.
+    + destruct sh as [|d sh]; [discriminate|]. cbn [fits] in Hf. inversion Hok as [|? ? Hd Hok']; subst.
+      destruct (IH sh Hok' Hf Hz Hb) as (axs & H1 & H2).
+      assert (Hc : c <> Some 0) by (intros ->; discriminate).
+      pose proof (norm_clipped a b c d Hd Hc) as Hcl.
+      destruct (norm_triple (normalize_slice (VSlice (oz a) (oz b) (oz c)) d)) as [[[s1 e1] st]|] eqn:Et;
+        [|contradiction].
+      destruct Hcl as [Hst _]. apply norm_triple_some in Et.
+      assert (Hst0 : st <> 0) by (rewrite Hst; destruct c as [z|]; simpl; [congruence|lia]).
+      assert (Hn : nentry_spec (ISlice a b c) d = NSlice s1 e1 st).
+      { cbn [nentry_spec]. unfold nslice_of. rewrite Et. reflexivity. }
+      exists (ASel (range_list s1 e1 st) :: axs). cbn [norm_all]. rewrite Hn.
+      cbn [map to_r axes_of_rentries axis_of_rentry axes_of_nix]. rewrite H1, H2.
+      destruct (Z.eqb_spec st 0); [contradiction|]. split; reflexivity.
+    + cbn [fits] in Hf. destruct (IH sh Hok Hf Hz Hb) as (axs & H1 & H2).
+      exists (ANew :: axs). cbn [norm_all map to_r axes_of_rentries axis_of_rentry axes_of_nix].
+      rewrite H1, H2. split; reflexivity.
+Qed.
+
+Lemma index_read_link sh ix axs :
+  shape_ok sh -> index_no_arrays ix = true -> index_no_zero_step ix = true ->
+  np_index_axes sh ix = Some axs ->
+  exists nix, CooIndex.normalize_index ix sh = Ok nix /\ axes_of_nix nix = Ok axs.
+Proof.
+  intros Hok Hna Hz Hax.
+  pose proof (shape_okb_ok sh Hok) as Hokb.
+  assert (Hd29 : d29_clause sh ix = true).
+  { unfold d29_clause. destruct (expand (Z.of_nat (length sh)) ix) as [ex|] eqn:E; [|reflexivity].
+    apply basic_bool_ok. eapply basic_expand; [exact E|]. exact Hna. }
+  destruct (normalize_link sh ix Hokb Hz Hd29) as [(ex & He & Hf & Ha & Hn & Hr)|[Hn Hr]].
+  - pose proof (expand_nzs _ _ _ He Hz) as Hz'.
+    pose proof (basic_expand _ _ _ He Hna) as Hb'.
+    destruct (norm_all_axes_read ex sh Hok Hf Hz' Hb') as (axs' & H1 & H2).
+    exists (norm_all ex sh). split; [exact Hn|].
+    unfold np_index_axes in Hax. unfold resolve_all in Hr. rewrite He in *. cbn [bind] in Hr.
+    rewrite Hr in Hax. rewrite H1 in Hax. inversion Hax; subst. exact H2.
+  - exfalso. unfold np_index_axes in Hax. unfold resolve_all in Hr.
+    destruct (expand (Z.of_nat (length sh)) ix) as [ex|]; [|discriminate].
+    cbn [bind] in Hr. rewrite Hr in Hax. discriminate.
+Qed.
+
+Section IndexStep.
+  Variable V : Type.
+  Variable veqb : V -> V -> bool.
+  Hypothesis veqb_eq : forall a b, veqb a b = true <-> a = b.
+  Variable fill : V.
+
+  Lemma setitem_index_spec sh (st : state V) ix v axs :
+    shape_ok sh -> index_no_newaxis ix = true -> index_no_arrays ix = true -> index_no_zero_step ix = true ->
+    np_index_axes sh ix = Some axs ->
+    bcast_ok (a_shape v) (selshape axs) = true ->
+    (length (a_shape v) <= length (selshape axs))%nat ->
+    exists st',
+      setitem_index veqb sh fill st ix v = Ok st' /\
+      (forall ix0, abs fill st' ix0 =
+                   match locate axs ix0 with
+                   | Some js => a_get v (bidx (a_shape v) js)
+                   | None => abs fill st ix0
+                   end) /\
+      (wf V veqb fill sh st -> wf V veqb fill sh st').
+  Proof.
+    intros Hok Hnn Hna Hz Hax Hb Hl.
+    destruct (index_link sh ix Hok Hnn Hna Hz) as [(nix & axs' & Hn & Hax' & Hf & Hin & _)|[_ Hnone]];
+      [|congruence].
+    rewrite Hax in Hax'. inversion Hax'; subst axs'.
+    destruct (setitem_go_spec V veqb veqb_eq fill sh _ axs Hf [] v st Hb Hl) as (st' & He & Ha & Hw).
+    exists st'. split; [|split].
+    - unfold setitem_index. rewrite Hn. cbn [bind]. exact He.
+    - intros ix0. rewrite Ha. reflexivity.
+    - apply Hw. intros t Ht. simpl. apply Hin. exact Ht.
+  Qed.
+End IndexStep.
 
 (* ------------------------------------------------------------------ _fancy_setitem *)
 Lemma last_pos_bounds {A} (eqb : A -> A -> bool) x l j :
@@ -946,7 +1179,7 @@ Section Histories.
     | _, _ => False
     end.
   Proof.
-    intros He. destruct k as [es|ls|m]; simpl.
+    intros He. destruct k as [es|ls|m|ix]; simpl.
     - unfold np_setitem_basic. destruct (np_axes (np_pad es sh) sh) as [axs|]; [|exact I].
       destruct (value_fits (a_shape v) (selshape axs)); [|exact I].
       intros ix. destruct (locate axs ix); [reflexivity|apply He].
@@ -956,6 +1189,9 @@ Section Histories.
     - destruct (mask_rows sh m) as [rows|]; [|exact I]. unfold np_assign_rows.
       destruct (bcast_ok (a_shape v) [Z.of_nat (length rows)]); [|exact I].
       intros ix. destruct (last_pos idx_eqb ix rows); [reflexivity|apply He].
+    - destruct (np_index_axes sh ix) as [axs|]; [|exact I]. unfold np_setitem_axes.
+      destruct (index_value_fits (np_scalar sh ix) (a_shape v) (selshape axs)); [|exact I].
+      intros ix0. destruct (locate axs ix0); [reflexivity|apply He].
   Qed.
 
   Lemma np_assign_ext sh (a a' : idx -> V) op :
@@ -976,7 +1212,21 @@ Section Histories.
     apply andb_true_iff in Hdom. destruct Hdom as [Hval Hcl].
     pose proof (np_setitem_ext sh (fun _ => a_get v []) (abs st) k v) as Hext.
     unfold DOK.step, np_assign. simpl fst. simpl snd.
-    destruct k as [es|ls|m]; [| |discriminate]; simpl in *.
+    destruct k as [es|ls|m|ix]; [| |discriminate|]; simpl in *.
+    3: {
+      repeat (apply andb_true_iff in Hcl; destruct Hcl as [Hcl ?]).
+      rename H into Hvn, H0 into Hz, H1 into Hna, H2 into Hnn, Hcl into Hne.
+      assert (Hset : setitem veqb sh fill st (KIndex ix) v = setitem_index veqb sh fill st ix v)
+        by (destruct ix; [discriminate|reflexivity]).
+      simpl in Hset. rewrite Hset. clear Hset.
+      unfold index_value_ndim_clause in Hvn.
+      destruct (np_index_axes sh ix) as [axs|] eqn:Eax; [|discriminate].
+      unfold np_setitem_axes in *.
+      destruct (index_value_fits (np_scalar sh ix) (a_shape v) (selshape axs)) eqn:Eb; [|discriminate].
+      apply index_value_fits_bcast in Eb. apply Nat.leb_le in Hvn.
+      destruct (setitem_index_spec V veqb veqb_eq fill sh st ix v axs Hok Hnn Hna Hz Eax Eb Hvn)
+        as (st' & He & Ha & Hw).
+      rewrite He. split; [exact Ha|exact Hw]. }
     - apply andb_true_iff in Hcl. destruct Hcl as [Hed Hvn].
       assert (Hset : setitem veqb sh fill st (KBasic es) v = setitem_basic veqb sh fill st es v)
         by (destruct es; [discriminate|reflexivity]).
@@ -1088,7 +1338,13 @@ Section Histories.
   Proof.
     intros HP st [k v] Hp. unfold DOK.step. simpl.
     destruct (setitem veqb sh fill st k v) as [st'|] eqn:E; [|assumption].
-    destruct k as [es|ls|m]; simpl in E; [| |discriminate].
+    destruct k as [es|ls|m|ix]; simpl in E; [| |discriminate|].
+    3: {
+      assert (E' : setitem_index veqb sh fill st ix v = Ok st')
+        by (destruct ix; [destruct sh as [|? [|? ?]]; discriminate|exact E]).
+      clear E. unfold setitem_index in E'.
+      destruct (CooIndex.normalize_index ix sh); simpl in E'; [|discriminate].
+      eapply setitem_go_closed; eassumption. }
     - assert (E' : setitem_basic veqb sh fill st es v = Ok st')
         by (destruct es; [destruct sh as [|? [|? ?]]; discriminate|exact E]).
       clear E. rename E' into E. unfold setitem_basic in E. destruct (normalize_key es sh); simpl in E; [|discriminate].
@@ -1185,7 +1441,15 @@ Section Reads.
     shape_ok sh -> read_dom sh k = true ->
     np_getitem sh (abs fill st) k = Some r -> getitem sh fill st k = Ok r.
   Proof.
-    intros Hok Hdom. destruct k as [es|ls|m]; simpl in *; [| |discriminate].
+    intros Hok Hdom. destruct k as [es|ls|m|ix]; simpl in *; [| |discriminate|].
+    3: {
+      apply andb_true_iff in Hdom. destruct Hdom as [Hdom Hz].
+      apply andb_true_iff in Hdom. destruct Hdom as [Hne Hna].
+      destruct (np_index_axes sh ix) as [axs|] eqn:Eax; [|discriminate].
+      intros H. inversion H; subst; clear H.
+      destruct (index_read_link sh ix axs Hok Hna Hz Eax) as (nix & Hn & Ha).
+      destruct ix as [|e0 ix0]; [discriminate|].
+      unfold getitem_index. rewrite Hn. cbn [bind]. rewrite Ha. reflexivity. }
     - destruct (np_axes (np_pad es sh) sh) as [axs|] eqn:Eax; [|discriminate].
       intros H. inversion H; subst; clear H.
       destruct (norm_entries_resolves _ _ _ Hok Eax) as (ents & Hn & _ & Ha).
@@ -1313,10 +1577,11 @@ Section AfterHistory.
   Lemma np_getitem_ext sh (a a' : idx -> V) k :
     (forall ix, a ix = a' ix) -> np_getitem sh a k = np_getitem sh a' k.
   Proof.
-    intros He. destruct k as [es|ls|m]; simpl.
+    intros He. destruct k as [es|ls|m|ix]; simpl.
     - destruct (np_axes (np_pad es sh) sh); [|reflexivity]. f_equal. f_equal. apply map_ext. assumption.
     - destruct (np_rows ls sh); [|reflexivity]. f_equal. f_equal. apply map_ext. assumption.
     - destruct (mask_rows sh m); [|reflexivity]. f_equal. f_equal. apply map_ext. assumption.
+    - destruct (np_index_axes sh ix); [|reflexivity]. f_equal. f_equal. apply map_ext. assumption.
   Qed.
 
   Theorem dok_read_after_proof sh ops k r :
